@@ -285,12 +285,14 @@ class MotionMonitor(Monitor):
             feats["fwparam"] = rnd.choice(["", "", "S1", "S0", "S"])       # "G10 S": a flag without a value
             feats["fwnospace"] = rnd.random() < 0.3       # "G10S1" is legal G-code too
         long_ = tier == "thorough" and rnd.random() < 0.05
-        regs, g = gen_program(rnd, feats, settings, nsteps=rnd.randint(100, 600) if long_ else None)
+        regs0 = [] if (feats.get("addregion") and rnd.random() < 0.4) else None     # regions only come into being during the job
+        regs, g = gen_program(rnd, feats, settings, nsteps=rnd.randint(100, 600) if long_ else None, regions=regs0)
         case = dict(cls=name, settings=settings, regions=regs, steps=g.steps, tags=sorted(g.tags))
         if feats.get("fw"):
             case["fw"] = True
             case["fwparam"] = feats["fwparam"]
-        if rnd.random() < self.plugin_share:
+        share = self.plugin_share * (8 if (feats.get("addregion") and self.plugin_share) else 1)
+        if rnd.random() < share:
             case = self.as_plugin_case(case)
         return case
 
@@ -310,8 +312,12 @@ class MotionMonitor(Monitor):
             if isinstance(st.get(key), (list, tuple)):
                 st[key] = "\n".join(st[key]) + "\n"
         st.setdefault("clear", False)
-        st.setdefault("shrink", False)
+        st.setdefault("shrink", any(x[0] == "api_delete" for x in case["steps"]))
         steps = [["event", "PrintStarted"]] + list(case["steps"])
+        if len(steps) > 8:
+            # the firmware's position report (M114 reply) arrives as an event now and then; what it says is the printer's business
+            k = 3 + (len(repr(case["steps"][:7])) * 31) % (len(steps) - 4)
+            steps.insert(k, ["event", "PositionUpdate", dict(x=1.0, y=2.0, z=3.0, e=4.0, t=0, f=1500.0, reason=None)])
         n = len(steps)
         if n > 6:
             # a pause and a resume somewhere in the job (digest-derived positions: the case stays a function of its content)
@@ -474,7 +480,8 @@ class C04(ExtrusionMonitor):
                (2, "firmware", mk(fw=True, inch=True)), (2, "g92e-while-retracted", mk(g92e_retracted=True, g92e_entry=True, p_inside=0.5)),
                (1, "at", mk(at=True)), (1, "addregion", mk(addregion=True)),
                (2, "spelled", mk(arcs=True, rel=True, spell=True, p_inside=0.5)),
-               (1.5, "arcs-under-g91", mk(rel=True, arcs=True, arcs_rel=True, p_arc=0.1, start_rel=0.5))]
+               (1.5, "arcs-under-g91", mk(rel=True, arcs=True, arcs_rel=True, p_arc=0.1, start_rel=0.5)),
+               (1.5, "regions-added-and-deleted", mk(addregion=True, delregion=True, p_inside=0.6, boost_add=0.1))]
 
     def oracle(self, tr, stats, case):
         return oracle_c04(tr, stats)
@@ -514,7 +521,9 @@ class C05(ExtrusionMonitor):
                (1, "e-only-arcs", mk(arcs=True)), (2, "spelled", mk(spell=True, rel=True, p_inside=0.5)),
                (1, "spelled-firmware", mk(spell=True, fw=True, p_inside=0.5)),
                (2, "e-word-on-every-line", mk(p_esame=0.7, p_inside=0.5, g92e_retracted=True)),
-               (2, "e-word-on-every-line-free-values", mk(p_esame=0.7, p_inside=0.6, egrid=False))]
+               (2, "e-word-on-every-line-free-values", mk(p_esame=0.7, p_inside=0.6, egrid=False)),
+               (1.5, "regions-added-and-deleted", mk(addregion=True, delregion=True, p_inside=0.6, boost_add=0.1)),
+               (1, "regions-added-and-deleted-firmware", mk(addregion=True, delregion=True, fw=True, p_inside=0.6, boost_add=0.1))]
 
     def gen_case(self, rnd, tier, k):
         if self.ex_index(k, tier) is None and rnd.random() < 0.06:
